@@ -64,6 +64,85 @@ import (
 //@   ensures keys:  forall k jsonpointer.RefKey :: jsonpointer.VerifInProgress(ctx, k) == old(jsonpointer.VerifInProgress(ctx, k))
 //@   ensures stack: jsonpointer.VerifStack(ctx) == old(jsonpointer.VerifStack(ctx))
 
+// ---- the other instantiations of resolveComponent ------------------------------------------------
+
+//@ func (p *parser) parseParameter(param *ogen.Parameter, ctx *jsonpointer.ResolveCtx) (r *openapi.Parameter, rerr error)
+//@   trusted induction hypothesis: nested resolution leaves the resolve context balanced
+//@   modifies ctx.depthLimit, ctx.refs[*], ctx.locstack
+//@   ensures depth: jsonpointer.VerifDepth(ctx) == old(jsonpointer.VerifDepth(ctx))
+//@   ensures stack: jsonpointer.VerifStack(ctx) == old(jsonpointer.VerifStack(ctx))
+//@   ensures keys:  forall k jsonpointer.RefKey :: jsonpointer.VerifInProgress(ctx, k) == old(jsonpointer.VerifInProgress(ctx, k))
+//@   ensures nonnil: rerr == nil ==> r != nil
+//@   fresh r
+
+//@ func (p *parser) parseHeader(name string, header *ogen.Header, ctx *jsonpointer.ResolveCtx) (r *openapi.Header, rerr error)
+//@   trusted induction hypothesis: nested resolution leaves the resolve context balanced
+//@   modifies ctx.depthLimit, ctx.refs[*], ctx.locstack
+//@   ensures depth: jsonpointer.VerifDepth(ctx) == old(jsonpointer.VerifDepth(ctx))
+//@   ensures stack: jsonpointer.VerifStack(ctx) == old(jsonpointer.VerifStack(ctx))
+//@   ensures keys:  forall k jsonpointer.RefKey :: jsonpointer.VerifInProgress(ctx, k) == old(jsonpointer.VerifInProgress(ctx, k))
+//@   ensures nonnil: rerr == nil ==> r != nil
+//@   ensures name:   rerr == nil ==> r.Name == name
+//@   fresh r
+
+//@ func (p *parser) parseExample(e *ogen.Example, ctx *jsonpointer.ResolveCtx) (r *openapi.Example, rerr error)
+//@   trusted induction hypothesis: nested resolution leaves the resolve context balanced
+//@   modifies ctx.depthLimit, ctx.refs[*], ctx.locstack
+//@   ensures depth: jsonpointer.VerifDepth(ctx) == old(jsonpointer.VerifDepth(ctx))
+//@   ensures stack: jsonpointer.VerifStack(ctx) == old(jsonpointer.VerifStack(ctx))
+//@   ensures keys:  forall k jsonpointer.RefKey :: jsonpointer.VerifInProgress(ctx, k) == old(jsonpointer.VerifInProgress(ctx, k))
+//@   fresh r
+
+//@ func (p *parser) parseSecurityScheme(s *ogen.SecurityScheme, ctx *jsonpointer.ResolveCtx) (r *ogen.SecurityScheme, rerr error)
+//@   trusted induction hypothesis: nested resolution leaves the resolve context balanced
+//@   modifies ctx.depthLimit, ctx.refs[*], ctx.locstack
+//@   ensures depth: jsonpointer.VerifDepth(ctx) == old(jsonpointer.VerifDepth(ctx))
+//@   ensures stack: jsonpointer.VerifStack(ctx) == old(jsonpointer.VerifStack(ctx))
+//@   ensures keys:  forall k jsonpointer.RefKey :: jsonpointer.VerifInProgress(ctx, k) == old(jsonpointer.VerifInProgress(ctx, k))
+
+//@ func (p *parser) resolveParameter(ref string, ctx *jsonpointer.ResolveCtx) (r *openapi.Parameter, err error)
+//@   requires ctx:   ctx != nil && jsonpointer.VerifWF(ctx) && p.spec != nil && p.spec.Components != nil && p.refs.parameters != nil
+//@   requires room:  jsonpointer.VerifDepth(ctx) < 9223372036854775807
+//@   requires cache: forall k refKey :: vHas(p.refs.parameters, k) ==> p.refs.parameters[k] != nil
+//@   inline resolveComponent
+//@   modifies ctx.depthLimit, ctx.refs[*], ctx.locstack, p.refs.parameters[*], p.schemas[*]
+//@   ensures depth: jsonpointer.VerifDepth(ctx) == old(jsonpointer.VerifDepth(ctx))
+//@   ensures keys:  forall k jsonpointer.RefKey :: jsonpointer.VerifInProgress(ctx, k) == old(jsonpointer.VerifInProgress(ctx, k))
+//@   ensures stack: jsonpointer.VerifStack(ctx) == old(jsonpointer.VerifStack(ctx))
+
+// A header component is cached by reference only, but the NAME of a header is the key of the referring
+// site: whichever site asks, the header it gets carries THAT site's name (referencing equals inlining).
+//@ func (p *parser) resolveHeader(headerName string, ref string, ctx *jsonpointer.ResolveCtx) (r *openapi.Header, err error)
+//@   requires ctx:   ctx != nil && jsonpointer.VerifWF(ctx) && p.spec != nil && p.spec.Components != nil && p.refs.headers != nil
+//@   requires room:  jsonpointer.VerifDepth(ctx) < 9223372036854775807
+//@   requires cache: forall k refKey :: vHas(p.refs.headers, k) ==> p.refs.headers[k] != nil
+//@   inline resolveComponent
+//@   modifies ctx.depthLimit, ctx.refs[*], ctx.locstack, p.refs.headers[*], p.schemas[*]
+//@   ensures depth: jsonpointer.VerifDepth(ctx) == old(jsonpointer.VerifDepth(ctx))
+//@   ensures keys:  forall k jsonpointer.RefKey :: jsonpointer.VerifInProgress(ctx, k) == old(jsonpointer.VerifInProgress(ctx, k))
+//@   ensures stack: jsonpointer.VerifStack(ctx) == old(jsonpointer.VerifStack(ctx))
+//@   ensures named: err == nil ==> r != nil && r.Name == headerName
+
+//@ func (p *parser) resolveExample(ref string, ctx *jsonpointer.ResolveCtx) (r *openapi.Example, err error)
+//@   requires ctx:   ctx != nil && jsonpointer.VerifWF(ctx) && p.spec != nil && p.spec.Components != nil && p.refs.examples != nil
+//@   requires room:  jsonpointer.VerifDepth(ctx) < 9223372036854775807
+//@   requires cache: forall k refKey :: vHas(p.refs.examples, k) ==> p.refs.examples[k] != nil
+//@   inline resolveComponent
+//@   modifies ctx.depthLimit, ctx.refs[*], ctx.locstack, p.refs.examples[*], p.schemas[*]
+//@   ensures depth: jsonpointer.VerifDepth(ctx) == old(jsonpointer.VerifDepth(ctx))
+//@   ensures keys:  forall k jsonpointer.RefKey :: jsonpointer.VerifInProgress(ctx, k) == old(jsonpointer.VerifInProgress(ctx, k))
+//@   ensures stack: jsonpointer.VerifStack(ctx) == old(jsonpointer.VerifStack(ctx))
+
+//@ func (p *parser) resolveSecurityScheme(ref string, ctx *jsonpointer.ResolveCtx) (r *ogen.SecurityScheme, err error)
+//@   requires ctx:   ctx != nil && jsonpointer.VerifWF(ctx) && p.spec != nil && p.spec.Components != nil && p.refs.securitySchemes != nil
+//@   requires room:  jsonpointer.VerifDepth(ctx) < 9223372036854775807
+//@   requires cache: forall k refKey :: vHas(p.refs.securitySchemes, k) ==> p.refs.securitySchemes[k] != nil
+//@   inline resolveComponent
+//@   modifies ctx.depthLimit, ctx.refs[*], ctx.locstack, p.refs.securitySchemes[*], p.schemas[*]
+//@   ensures depth: jsonpointer.VerifDepth(ctx) == old(jsonpointer.VerifDepth(ctx))
+//@   ensures keys:  forall k jsonpointer.RefKey :: jsonpointer.VerifInProgress(ctx, k) == old(jsonpointer.VerifInProgress(ctx, k))
+//@   ensures stack: jsonpointer.VerifStack(ctx) == old(jsonpointer.VerifStack(ctx))
+
 var (
 	_ yaml.Node
 	_ ogen.RequestBody
